@@ -8,6 +8,20 @@ COMMON_ASSUME = [
 ]
 
 PROPS = {
+    "C07": {
+        "units": [{"pkg": "./c07", "shards": 6, "shards_thorough": 16, "timeout": 900}],
+        "rule": ("real loopback chain raw-TCP client -> proxy.HTTPProxy (httptest server, real http.Transport) -> recording upstream. rapid-generated requests: method (GET POST PUT DELETE PATCH OPTIONS HEAD PURGE), "
+                 "request target with percent-encoded octets (%2F %2f %20 %41 %C3%A9 %25 %3F %23), dot segments, empty segments, query (absent / encoded / repeated keys), 0-8 end-to-end headers with odd-cased and "
+                 "repeated names and empty values, body 0 B-256 KiB (thorough 4 MiB) with Content-Length or chunked in 1-5 chunks; routes over every combination of strip, prepend, host=dst|name|none, target query; "
+                 "upstream answers with status 200-599 (incl. 204/304), 0-6 headers incl. repeated Set-Cookie, body in 1-5 flushed writes. Oracle: upstream saw the same method, body bytes and every client end-to-end "
+                 "header value list and nothing else (managed forwarding headers excluded), request target == prepend + strip(raw path) [?target query & client query], Host per route option; client saw the upstream's "
+                 "status, header value lists and body bytes; no route => configured status (404 outside 100-999) + no-route page, upstream hit counter unchanged. Non-trivial = request with an encoded octet or a body "
+                 "AND route with strip, prepend or target query; distinct by (route, method, path, query, body size, chunking, status)."),
+        "technique": "rapid property test over a real loopback proxy chain with a recording upstream (differential between what was sent and what was received on both sides)",
+        "level_text": "Every generated exchange is run through a real listener, fabio's HTTP handler, a real transport and a recording upstream; both directions are compared field by field with what the other side sent, with the documented path/query/Host rewriting applied by a string-level model. Exploration only.",
+        "level_note": "HTTP/1.1 only; hop-by-hop headers and the forwarding headers of C08 are excluded from the comparison; the Go HTTP stack between the sockets is trusted.",
+        "assumptions": COMMON_ASSUME,
+    },
     "C17": {
         "units": [
             {"pkg": "./c17", "run": "TestC17Handler|TestC17ThroughProxy", "shards": 4, "shards_thorough": 16, "timeout": 900},
